@@ -15,6 +15,7 @@
 package etcd
 
 import (
+	"bytes"
 	"context"
 	"fmt"
 	"time"
@@ -157,6 +158,12 @@ func (s *RPCServer) DeleteRange(ctx context.Context, r *etcdserverpb.DeleteRange
 	return nil, fmt.Errorf("delete is not supported")
 }
 
+// onSingleKey returns true if an operation in a transaction addresses exactly the given key,
+// i.e. its key is the same and it has no range end
+func onSingleKey(key []byte, opKey []byte, opRangeEnd []byte) bool {
+	return bytes.Equal(key, opKey) && len(opRangeEnd) == 0
+}
+
 func isCreate(txn *etcdserverpb.TxnRequest) *etcdserverpb.PutRequest {
 	if len(txn.Compare) == 1 &&
 		txn.Compare[0].Target == etcdserverpb.Compare_MOD &&
@@ -164,7 +171,8 @@ func isCreate(txn *etcdserverpb.TxnRequest) *etcdserverpb.PutRequest {
 		txn.Compare[0].GetModRevision() == 0 &&
 		len(txn.Failure) == 0 &&
 		len(txn.Success) == 1 &&
-		txn.Success[0].GetRequestPut() != nil {
+		txn.Success[0].GetRequestPut() != nil &&
+		onSingleKey(txn.Success[0].GetRequestPut().Key, txn.Compare[0].Key, txn.Compare[0].RangeEnd) {
 		return txn.Success[0].GetRequestPut()
 	}
 	return nil
@@ -176,8 +184,12 @@ func isDelete(txn *etcdserverpb.TxnRequest) (int64, []byte, bool) {
 		len(txn.Success) == 2 &&
 		txn.Success[0].GetRequestRange() != nil &&
 		txn.Success[1].GetRequestDeleteRange() != nil {
+		get := txn.Success[0].GetRequestRange()
 		rng := txn.Success[1].GetRequestDeleteRange()
-		return 0, rng.Key, true
+		if len(rng.RangeEnd) == 0 && onSingleKey(rng.Key, get.Key, get.RangeEnd) {
+			return 0, rng.Key, true
+		}
+		return 0, nil, false
 	}
 	if len(txn.Compare) == 1 &&
 		txn.Compare[0].Target == etcdserverpb.Compare_MOD &&
@@ -186,7 +198,13 @@ func isDelete(txn *etcdserverpb.TxnRequest) (int64, []byte, bool) {
 		txn.Failure[0].GetRequestRange() != nil &&
 		len(txn.Success) == 1 &&
 		txn.Success[0].GetRequestDeleteRange() != nil {
-		return txn.Compare[0].GetModRevision(), txn.Success[0].GetRequestDeleteRange().Key, true
+		get := txn.Failure[0].GetRequestRange()
+		rng := txn.Success[0].GetRequestDeleteRange()
+		if len(rng.RangeEnd) == 0 &&
+			onSingleKey(rng.Key, txn.Compare[0].Key, txn.Compare[0].RangeEnd) &&
+			onSingleKey(rng.Key, get.Key, get.RangeEnd) {
+			return txn.Compare[0].GetModRevision(), rng.Key, true
+		}
 	}
 	return 0, nil, false
 }
@@ -199,11 +217,16 @@ func isUpdate(txn *etcdserverpb.TxnRequest) (int64, []byte, []byte, int64, bool)
 		txn.Success[0].GetRequestPut() != nil &&
 		len(txn.Failure) == 1 &&
 		txn.Failure[0].GetRequestRange() != nil {
-		return txn.Compare[0].GetModRevision(),
-			txn.Compare[0].Key,
-			txn.Success[0].GetRequestPut().Value,
-			txn.Success[0].GetRequestPut().Lease,
-			true
+		put := txn.Success[0].GetRequestPut()
+		get := txn.Failure[0].GetRequestRange()
+		if onSingleKey(put.Key, txn.Compare[0].Key, txn.Compare[0].RangeEnd) &&
+			onSingleKey(put.Key, get.Key, get.RangeEnd) {
+			return txn.Compare[0].GetModRevision(),
+				put.Key,
+				put.Value,
+				put.Lease,
+				true
+		}
 	}
 	return 0, nil, nil, 0, false
 }
